@@ -22,8 +22,8 @@ def judgeRun (documentedFatal : Bool) (shots minSamples maxSamples : Nat) (res :
 /-- "the affected request is reported as a sample carrying the received status or the failure": what the sample of
 a plain http request must carry, given the GROUND TRUTH of what the scripted target did with that request
 (`f` no response, `rb<st>` head then a broken body, `rbx<st>` the same by reset — the head may be lost too —,
-`r<st>` a complete response, `u` not known). `netNz`: the sample's net code is non-zero (a failure). -/
-def carryOk (truth : String) (proto : Nat) (netNz : Bool) : Bool :=
+`r<st>` a complete response, `u` not known; a leading `o`: … or no response at all, when the CONNECTION fails). `netNz`: the sample's net code is non-zero (a failure). -/
+def carryOkExact (truth : String) (proto : Nat) (netNz : Bool) : Bool :=
   let num (pfx : String) : Option Nat :=
     if pfx.toList.isPrefixOf truth.toList then (String.ofList (truth.toList.drop pfx.length)).toNat? else none
   if truth == "u" then true
@@ -33,6 +33,12 @@ def carryOk (truth : String) (proto : Nat) (netNz : Bool) : Bool :=
     | none, some st, _ => netNz && proto == st
     | none, none, some st => !netNz && proto == st
     | none, none, none => true
+
+/-- … a leading `o` (TLS targets scripted per connection): the request is answered as the rest of the token says, or
+not at all because the CONNECTION it would travel on fails -/
+def carryOk (truth : String) (proto : Nat) (netNz : Bool) : Bool :=
+  if truth.startsWith "o" then (proto == 0 && netNz) || carryOkExact (String.ofList (truth.toList.drop 1)) proto netNz
+  else carryOkExact truth proto netNz
 
 /-- Verdict on the samples of a run of a plain http gun: `truths` maps a sample tag (hex) to the ground truth of its
 request, `agg` is the observed aggregate `taghex:proto:0|nz*count,…`. -/
